@@ -315,7 +315,18 @@ class C01Machine(TraceMachine):
         st1 = os.stat(path)
         if (st1.st_ino, st1.st_mtime, st1.st_size) == (st0.st_ino, st0.st_mtime, st0.st_size):
             os.utime(path, ns=(st0.st_atime_ns, st0.st_mtime_ns + 1_000_000_000))
+        self._note_content(idx, new)
+        self.labels.add("rewrite_item")
+        if sum(1 for g in self.files if g[1] == new) >= 2:
+            self.labels.add("content-at>=2-paths")
+
+    def _note_content(self, idx, new):
+        """Model bookkeeping after the harness changed the bytes of pool file `idx`."""
+        f = self.files[idx]
+        if f[1] in self.big and len(new) > CHUNK:
+            self.big.add(new)
         f[1] = new
+        self.file_bytes.add(new)
         pi, rel = f[2], f[3]
         p, isdir, body = self.pool[pi]
         if isdir:
@@ -326,9 +337,6 @@ class C01Machine(TraceMachine):
                     self.listings.append(lb)
         else:
             self.pool[pi] = (p, False, new)
-        self.labels.add("rewrite_item")
-        if sum(1 for g in self.files if g[1] == new) >= 2:
-            self.labels.add("content-at>=2-paths")
 
     @rule(store=st.integers(0, 1), item=st.one_of(st.just(-1), st.integers(0, 7), st.integers(0, 7)))
     @traced
@@ -345,6 +353,147 @@ class C01Machine(TraceMachine):
             staging, _meta, obj = build(odb, entry[0], LocalFileSystem(), "md5", upload=True)
             transfer(staging, odb, {obj.hash_info}, shallow=False, hardlink=False)
         self.labels.add("stage_upload" + ("-all" if item < 0 else ""))
+
+    # ---- upload of a source about which the library holds OUTDATED knowledge ---------------------
+    def _edited(self, cur, edit, src, n):
+        """The bytes a (harness) writer leaves in a pool file that held `cur`: 'other' = the current content of
+        pool file `src`, 'flip' = one bit flipped (same size; the position moves with the writer's count `n`),
+        'append' (and every fallback) = one more line."""
+        if edit == "other" and self.files:
+            new = self.files[src % len(self.files)][1]
+            if new != cur:
+                return new
+        if edit == "flip" and cur:
+            k = (len(cur) // 2 + n) % len(cur)
+            return cur[:k] + bytes([cur[k] ^ 1]) + cur[k + 1:]
+        return cur + b"one more line, written while staging\n"
+
+    def _write_pool_file(self, idx, new, mtime_ns):
+        """Harness write of pool file `idx` with an explicit mtime.  A file that is hard-linked (into a store) is
+        replaced by a new inode, never written through; otherwise it is rewritten in place (same inode)."""
+        path = self.files[idx][0]
+        st0 = os.stat(path)
+        if st0.st_nlink > 1:
+            os.unlink(path)
+        else:
+            os.chmod(path, 0o644)
+        with open(path, "wb") as fobj:
+            fobj.write(new)
+        os.chmod(path, self.fmode.get(path, 0o644))
+        os.utime(path, ns=(st0.st_atime_ns, mtime_ns))
+        self._note_content(idx, new)
+
+    @staticmethod
+    def _bump_mtime(path, step):
+        """Harness clock step on `path`: afterwards no hash-state row written before can match its token."""
+        st0 = os.stat(path)
+        os.utime(path, ns=(st0.st_atime_ns, st0.st_mtime_ns + step))
+        if os.stat(path).st_mtime == st0.st_mtime:
+            os.utime(path, ns=(st0.st_atime_ns, st0.st_mtime_ns + 1_000_000_000))
+
+    @rule(store=st.integers(0, 1), item=st.integers(0, 7), victim=st.integers(0, 40),
+          how=st.sampled_from(["writer", "state-row", "fs-md5"]),
+          edit=st.sampled_from(["append", "flip", "other"]), src=st.integers(0, 40),
+          at=st.one_of(st.just(-1), st.just(-1), st.integers(0, 7)),
+          step=st.sampled_from([1_000, 1_000_000, 2_000_000_000]))
+    @traced
+    def upload_stale(self, store, item, victim, how, edit, src, at, step):
+        """build(upload=True)+transfer of one pool item into L or G while what the library knows about one of its
+        files (`victim`) is outdated at the moment the file is uploaded - the upload path must name the object by
+        the digest of the stream it copied, whatever was known before.  Three ways the earlier digest gets stale:
+
+        'writer' (directories): a progress Callback passed to build() plays a concurrent writer - on every tick
+          (at=-1; one tick = some file(s) of the current directory level have just been hashed / served from the
+          state) or only on tick number `at` it rewrites the victim (append a line / flip a bit / take the content
+          of pool file `src`), i.e. possibly after the victim was hashed and always before the level's uploads;
+        'state-row' (needs the shared State): a status-style build() records every file of the item, then the
+          victim is rewritten IN PLACE with other bytes of the same size and its mtime restored (same inode, mtime,
+          size: the row still matches), then the upload runs;
+        'fs-md5' (single files): the user edits the file (clock step), the upload reads it through a local
+          filesystem whose info() still advertises the md5 recorded before the edit.
+
+        Afterwards the harness steps the victim's mtime, so that no row of the shared State saved before or during
+        the rule matches the file any more: later NON-upload rules legitimately trust a matching row.  A mechanism
+        that does not apply (no State, hard-linked or empty victim, directory vs file) falls over to the next."""
+        from dvc_objects.fs.local import LocalFileSystem
+
+        from dvc_data.hashfile.build import build
+        from dvc_data.hashfile.transfer import transfer
+
+        if not self.pool:
+            return
+        pi = item % len(self.pool)
+        root, isdir, _body = self.pool[pi]
+        members = [k for k, f in enumerate(self.files) if f[2] == pi]
+        odb = self.odbs[store]
+        fs = LocalFileSystem()
+        kw = {}
+
+        def in_place_ok(k):  # same-size in-place rewrite possible without writing through a hard link
+            return bool(self.files[k][1]) and os.stat(self.files[k][0]).st_nlink == 1
+
+        if how == "state-row" and self.state is not None and any(in_place_ok(k) for k in members):
+            mech = "state-row"
+            cands = [k for k in members if in_place_ok(k)]
+        else:
+            mech = "writer" if isdir else "fs-md5"
+            cands = members
+        vidx = cands[victim % len(cands)]
+        vpath, old = self.files[vidx][0], self.files[vidx][1]
+        old_absent = ref.ref_hash(old, "md5") not in self.ids[store]
+        fired = [0]
+
+        if mech == "writer":
+            from fsspec.callbacks import Callback
+
+            if sum(1 for k in members if len(self.files[k][1]) > CHUNK) >= 2:
+                return  # >= 2 files over the large-file threshold are hashed on a thread pool: no defined tick order
+            base = os.stat(vpath).st_mtime_ns
+            when = at if at < 0 else at % len(members)
+            machine = self
+
+            class Writer(Callback):
+                ticks = 0
+
+                def relative_update(self, inc=1):
+                    super().relative_update(inc)
+                    if inc <= 0:
+                        return
+                    k, self.ticks = self.ticks, self.ticks + 1
+                    if when < 0 or k == when:
+                        fired[0] += 1
+                        new = machine._edited(machine.files[vidx][1], edit, src, fired[0])
+                        machine._write_pool_file(vidx, new, base + fired[0] * step)
+
+            kw["callback"] = Writer()
+        elif mech == "state-row":
+            build(odb, root, fs, "md5")  # a status-style pass: one row per file, contents unchanged
+            st0 = os.stat(vpath)
+            new = self._edited(old, "other" if edit == "other" else "flip", src, 0)
+            if len(new) != len(old):
+                new = self._edited(old, "flip", src, 0)
+            self._write_pool_file(vidx, new, st0.st_mtime_ns)
+            st1 = os.stat(vpath)
+            assert (st1.st_ino, st1.st_mtime_ns, st1.st_size) == (st0.st_ino, st0.st_mtime_ns, st0.st_size)
+            fired[0] = 1
+        else:
+            import hashlib
+
+            self._write_pool_file(vidx, self._edited(old, edit, src, 0), os.stat(vpath).st_mtime_ns + step)
+            fired[0] = 1
+            fs = _StaleInfoFS({vpath: hashlib.md5(old).hexdigest()})  # noqa: S324
+
+        try:
+            staging, _meta, obj = build(odb, root, fs, "md5", upload=True, **kw)
+            transfer(staging, odb, {obj.hash_info}, shallow=False, hardlink=False)
+        finally:
+            self._bump_mtime(vpath, step)
+        tag = "upload_stale:" + mech + ("-dir" if isdir else "-file")
+        self.labels.add(tag)
+        if fired[0]:
+            self.labels.add(tag + "-content-changed" + ("-old-digest-not-in-store" if old_absent else ""))
+        if mech == "writer":
+            self.labels.add("upload_stale:writer-" + ("every-tick" if at < 0 else "one-tick"))
 
     @rule(store=st.integers(0, 2), fidx=st.integers(0, 40), hardlink=st.booleans(),
           check_exists=st.sampled_from([True, True, False]))
@@ -745,6 +894,21 @@ class C01Machine(TraceMachine):
             classes.append("temp-leftover-seen")
         classes.append(f"steps={min(len(self.trace), 13) // 4 * 4}+")
         return Result(nontrivial=nontrivial, classes=classes, counters={"steps": len(self.trace)})
+
+
+class _StaleInfoFS(ops.LocalFileSystem):
+    """The local filesystem, except that info() of the given paths also reports an 'md5' recorded earlier (as a
+    filesystem that serves checksums from metadata does when the metadata lags behind the data)."""
+
+    def __init__(self, advertised):
+        super().__init__()
+        self._advertised = dict(advertised)
+
+    def info(self, path, *args, **kwargs):
+        res = super().info(path, *args, **kwargs)
+        if isinstance(path, str) and path in self._advertised and isinstance(res, dict):
+            res = dict(res, md5=self._advertised[path])
+        return res
 
 
 def _origin(trace):
